@@ -160,3 +160,232 @@ Definition spinning_cw (x : gst) (t : nat) : bool :=
   | CWXchg _ :: _ | YRead :: CWSpin _ :: _ | YNext _ :: CWSpin _ :: _ => true
   | _ => false
   end.
+
+(* ------------------------------------------------------------------ *)
+(* Witnesses (vm_compute): what is false of the faithful model.          *)
+Definition rep {A} (n : nat) (a : A) : list A := repeat a n.
+
+(* F-C04a: fiber 1 blocks in fiber_join; fiber 2 detaches; the join returns
+   SUCCESS / NULL although the target has not even started to finish. *)
+Definition wa_progs := [[JFinish 7]; [JJoin]; [JDetach]].
+Definition wa_sched := rep 10 1%nat ++ rep 4 2%nat ++ rep 6 1%nat.
+Lemma witness_a :
+  let x := irun (iinit true wa_progs) wa_sched in
+  gsucc (gh x) = [(1%nat, 0, None)] /\ gfin (gh x) = None /\ dwr (gh x) = true /\ jwr (gh x) = false /\
+  stk (base x) 0%nat = [Start; FC (JNext [JFinish 7] 1)].
+Proof. vm_compute. repeat split. Qed.
+
+(* F-C04c: fiber 1 blocks in fiber_join; the target finishes and exchanges
+   WAIT_TO_JOIN -> WAIT_FOR_JOINER; before it picks fiber 1 out of join_info,
+   fiber 2's tryjoin sees WAIT_FOR_JOINER, takes fiber 1 out of the slot and
+   returns SUCCESS / 7; fiber 1 wakes and returns SUCCESS / NULL; the target
+   spins forever in clear_or_wait.  No detach anywhere. *)
+Definition wc_progs := [[JFinish 7]; [JJoin]; [JTry]].
+Definition wc_sched := rep 10 1%nat ++ rep 4 0%nat ++ rep 7 2%nat ++ rep 6 1%nat ++ rep 40 0%nat.
+Lemma witness_c :
+  let x := irun (iinit true wc_progs) wc_sched in
+  gsucc (gh x) = [(1%nat, 0, Some 7); (2%nat, 7, Some 7)] /\ dwr (gh x) = false /\ jwr (gh x) = true /\
+  spinning_cw x 0 = true /\ reclaims (base x) = 0.
+Proof. vm_compute. repeat split. Qed.
+
+(* F-C04b, guarded mode: the target finished first and sleeps; fiber 2's
+   tryjoin has read WAIT_FOR_JOINER twice; fiber 1's join completes (SUCCESS / 7),
+   the target wakes, becomes DONE and is freed; fiber 2's exchange then hits
+   the freed fiber. *)
+Definition wb_progs := [[JFinish 7]; [JJoin]; [JTry]].
+Definition wb_sched := rep 11 0%nat ++ rep 3 2%nat ++ rep 6 1%nat ++ rep 10 0%nat ++ rep 1 2%nat.
+Lemma witness_b :
+  let x := irun (iinit true wb_progs) wb_sched in
+  touched (gh x) = true /\ reclaims (base x) = 1 /\ gsucc (gh x) = [(1%nat, 7, Some 7)] /\
+  dwr (gh x) = false /\ jwr (gh x) = false.
+Proof. vm_compute. repeat split. Qed.
+
+(* F-C04b, second form: fiber 1 sleeps in join, the target hands over its
+   result and is freed with detach_state left at WAIT_FOR_JOINER; fiber 2's
+   tryjoin (begun while the handle was valid: fiber 1 has not returned yet)
+   sees WAIT_FOR_JOINER, "wins" the exchange and spins forever on the empty
+   join_info of the freed fiber. *)
+Definition wb2_sched := rep 10 1%nat ++ rep 30 0%nat ++ rep 30 2%nat.
+Lemma witness_b2 :
+  let x := irun (iinit true wb_progs) wb2_sched in
+  touched (gh x) = true /\ reclaims (base x) = 1 /\ spinning_cw x 2 = true /\ gsucc (gh x) = [] /\
+  dwr (gh x) = false /\ jwr (gh x) = false.
+Proof. vm_compute. repeat split. Qed.
+
+(* F-C04d: fiber 1's join reads NONE; fiber 2 detaches (SUCCESS); fiber 1
+   exchanges WAIT_TO_JOIN over DETACHED and fails; the finishing target then
+   finds WAIT_TO_JOIN and waits forever for a joiner that does not exist. *)
+Definition wd_progs := [[JFinish 7]; [JJoin]; [JDetach]].
+Definition wd_sched := rep 2 1%nat ++ rep 2 2%nat ++ rep 1 1%nat ++ rep 40 0%nat.
+Lemma witness_d :
+  let x := irun (iinit true wd_progs) wd_sched in
+  jod (gh x) = true /\ gdet (gh x) = true /\ spinning_cw x 0 = true /\ reclaims (base x) = 0 /\
+  stack_empty x 1 = true /\ stack_empty x 2 = true /\ dwr (gh x) = false.
+Proof. vm_compute. repeat split. Qed.
+
+(* ------------------------------------------------------------------ *)
+(* The invariant.                                                      *)
+Lemma tid_fname s : tid_of_name (fname s) = s.
+Proof. unfold tid_of_name, fname, Zn. replace (1000 + Z.of_nat s - 1000) with (Z.of_nat s) by lia. apply Nat2Z.id. Qed.
+Lemma fname_nz s : fname s <> 0.
+Proof. unfold fname, Zn. lia. Qed.
+Lemma fname_eqb s : (fname s =? 0) = false.
+Proof. apply Z.eqb_neq, fname_nz. Qed.
+
+Definition gm (x : gst) : kmem := mem (base x).
+Definition run (x : gst) (t : nat) : Prop :=
+  fstate (gm x) t = ST_RUNNING /\ blocked (gm x) t = false /\ slot_wait (gm x) t = None.
+(* the target before its result store *)
+Definition tpre (x : gst) (t : nat) : Prop :=
+  t = tgt -> gfin (gh x) = None /\ ds_of (base x) <> D_WFJ.
+Definition idle (x : gst) (t : nat) : Prop := run x t /\ tpre x t.
+Definition nostolen (x : gst) : Prop := stolen_d (gh x) = false /\ stolen_j (gh x) = false.
+(* the mailbox of a joiner that was woken holds the target's value *)
+Definition mail_ok (x : gst) (t : nat) : Prop :=
+  nostolen x -> exists R, gfin (gh x) = Some R /\ cell (gm x) (c_res t) = R.
+Definition taken_by_any (x : gst) (t : nat) : Prop := exists u, mb (gh x) = MBTaken t u.
+
+(* who may sleep in the slot: continuation X of fiber t *)
+Definition sleeperX (x : gst) (t : nat) (X : jc) : Prop :=
+  (t = tgt /\ X = TWoke /\ gfin (gh x) <> None) \/
+  (t <> tgt /\ (exists p k, X = JWoke p k) /\ na (gh x) = O /\ late (gh x) t = false).
+(* who may be in clear_or_wait *)
+Definition cwX (x : gst) (t : nat) (X : jc) : Prop :=
+  (t = tgt /\ X = TTook /\ gfin (gh x) <> None /\ released (gh x) = true) \/
+  (t <> tgt /\ (exists p k r, X = JTook p k r /\ gfin (gh x) = Some r) /\ released (gh x) = true /\
+     (is_reg (mb (gh x)) = true -> jwr (gh x) = true)) \/
+  (t <> tgt /\ (exists p k, X = DTook p k) /\ released (gh x) = true /\
+     (is_reg (mb (gh x)) = true -> dwr (gh x) = true)).
+(* the target once it is on its way to DONE *)
+Definition tfin (x : gst) : Prop := gfin (gh x) <> None /\ released (gh x) = true.
+Definition tdone_st (x : gst) : Prop :=
+  fstate (gm x) tgt = ST_DONE /\ blocked (gm x) tgt = false /\ slot_wait (gm x) tgt = None /\
+  tfin x /\ reclaims (base x) = 0.
+
+Inductive tshape (x : gst) (t : nat) : stack jc -> Prop :=
+| sh_start p k : blocked (gm x) t = false -> slot_wait (gm x) t = None -> tpre x t ->
+    tshape x t [Start; FC (JNext p k)]
+| sh_done : tshape x t []
+| sh_y1 p k : idle x t -> tshape x t [YRead; FC (JYielded p k)]
+| sh_y2 p k : idle x t -> tshape x t [YNext ST_RUNNING; FC (JYielded p k)]
+(* target: fiber_mark_completed *)
+| sh_tstore r : t = tgt -> idle x t -> tshape x t [CStoreC (c_res tgt) r 3; FC TStored]
+| sh_tload : t = tgt -> run x t -> gfin (gh x) <> None -> ds_of (base x) <> D_WFJ ->
+    tshape x t [CLoadC c_ds 5; FC TLoaded]
+| sh_txchg : t = tgt -> run x t -> gfin (gh x) <> None -> ds_of (base x) <> D_WFJ ->
+    tshape x t [CXchgC c_ds D_WFJ 5; FC TXchg]
+(* set_and_wait + the yield that switches away + the resumption *)
+| sh_sw X : run x t -> mb (gh x) = MBPending t -> sleeperX x t X ->
+    tshape x t [SWState c_ji (fname t); FC X]
+| sh_s1 X : fstate (gm x) t = ST_WAITING -> blocked (gm x) t = false ->
+    slot_wait (gm x) t = Some (c_ji, fname t) -> mb (gh x) = MBPending t -> sleeperX x t X ->
+    tshape x t [YRead; FC X]
+| sh_s2 X : fstate (gm x) t = ST_WAITING -> blocked (gm x) t = false ->
+    slot_wait (gm x) t = Some (c_ji, fname t) -> mb (gh x) = MBPending t -> sleeperX x t X ->
+    tshape x t [YNext ST_WAITING; FC X]
+| sh_s3 X : fstate (gm x) t = ST_WAITING -> blocked (gm x) t = false ->
+    slot_wait (gm x) t = Some (c_ji, fname t) -> mb (gh x) = MBPending t -> sleeperX x t X ->
+    tshape x t [SwRead; YLoop; FC X]
+| sh_s4 X : fstate (gm x) t = ST_WAITING -> blocked (gm x) t = false ->
+    slot_wait (gm x) t = Some (c_ji, fname t) -> mb (gh x) = MBPending t -> sleeperX x t X ->
+    tshape x t [SwDone; YLoop; FC X]
+| sh_s5 X : fstate (gm x) t = ST_WAITING -> blocked (gm x) t = false ->
+    slot_wait (gm x) t = Some (c_ji, fname t) -> mb (gh x) = MBPending t -> sleeperX x t X ->
+    tshape x t [MRead; YLoop; FC X]
+| sh_s6 X : fstate (gm x) t = ST_WAITING -> blocked (gm x) t = false ->
+    slot_wait (gm x) t = None -> mb (gh x) = MBPending t -> sleeperX x t X ->
+    tshape x t [MSetWait c_ji (fname t); YLoop; FC X]
+| sh_s7 X : slot_wait (gm x) t = None -> blocked (gm x) t = negb (woken (gh x)) ->
+    ((mb (gh x) = MBFull t /\ woken (gh x) = false) \/ taken_by_any x t) ->
+    (woken (gh x) = true -> t <> tgt -> mail_ok x t) ->
+    (gave (gh x) = true -> mb (gh x) = MBTaken t tgt -> exists R, gfin (gh x) = Some R /\ cell (gm x) (c_res t) = R) ->
+    sleeperX x t X ->
+    tshape x t [Asleep; YLoop; FC X]
+| sh_s8 X : slot_wait (gm x) t = None -> blocked (gm x) t = false -> taken_by_any x t ->
+    woken (gh x) = true -> (t <> tgt -> mail_ok x t) -> sleeperX x t X ->
+    tshape x t [Resume; YLoop; FC X]
+| sh_s9 X : run x t -> taken_by_any x t -> woken (gh x) = true -> (t <> tgt -> mail_ok x t) -> sleeperX x t X ->
+    tshape x t [YRead; FC X]
+| sh_s10 X : run x t -> taken_by_any x t -> woken (gh x) = true -> (t <> tgt -> mail_ok x t) -> sleeperX x t X ->
+    tshape x t [YNext ST_RUNNING; FC X]
+(* clear_or_wait *)
+| sh_c0 X : run x t -> cwX x t X -> tshape x t [CWXchg c_ji; FC X]
+| sh_c1 X : run x t -> cwX x t X -> tshape x t [YRead; CWSpin c_ji; FC X]
+| sh_c2 X : run x t -> cwX x t X -> tshape x t [YNext ST_RUNNING; CWSpin c_ji; FC X]
+(* target hands its result to the joiner it took out of the slot *)
+| sh_tread j : t = tgt -> run x t -> mb (gh x) = MBTaken j tgt -> woken (gh x) = false -> gave (gh x) = false ->
+    j <> tgt -> tfin x -> tshape x t [CLoadC (c_res tgt) 5; FC (TReadRes j)]
+| sh_tgive j v : t = tgt -> run x t -> mb (gh x) = MBTaken j tgt -> woken (gh x) = false -> gave (gh x) = false ->
+    j <> tgt -> tfin x -> gfin (gh x) = Some v -> tshape x t [CStoreC (c_res j) v 5; FC (TGave j)]
+| sh_tready j : t = tgt -> run x t -> mb (gh x) = MBTaken j tgt -> woken (gh x) = false -> gave (gh x) = true ->
+    j <> tgt -> tfin x -> tshape x t [FStWrite j ST_READY; FC (TReady j)]
+(* target: state = DONE; done_fiber = self; yield; destroyed *)
+| sh_tdonew : t = tgt -> run x t -> tfin x -> reclaims (base x) = 0 -> tshape x t [FStWrite tgt ST_DONE; FC TDoneW]
+| sh_ty1 : t = tgt -> tdone_st x -> tshape x t [FStRead tgt; FC TY1]
+| sh_ty2 : t = tgt -> tdone_st x -> tshape x t [YNext ST_RUNNING; FC TY2]
+| sh_ty3 : t = tgt -> tdone_st x -> tshape x t [FStRead tgt; FC TY3]
+| sh_ty4 : t = tgt -> tdone_st x -> tshape x t [FStRead tgt; FC TY4]
+| sh_ty5 : t = tgt -> tdone_st x -> tshape x t [FStRead tgt; FC TY5]
+(* fiber_join *)
+| sh_jload p k : t <> tgt -> run x t -> tshape x t [CLoadC c_ds 5; FC (JLoaded p k)]
+| sh_jxchg p k : t <> tgt -> run x t -> tshape x t [CXchgC c_ds D_WTJ 5; FC (JXchg p k)]
+| sh_jmail p k : t <> tgt -> run x t -> taken_by_any x t -> woken (gh x) = true -> mail_ok x t ->
+    na (gh x) = O -> late (gh x) t = false -> tshape x t [CLoadC (c_res t) 5; FC (JMail p k)]
+| sh_jclear p k v : t <> tgt -> run x t -> taken_by_any x t -> woken (gh x) = true ->
+    (nostolen x -> gfin (gh x) = Some v) ->
+    na (gh x) = O -> late (gh x) t = false -> tshape x t [CStoreC (c_res t) 0 5; FC (JCleared p k v)]
+| sh_jreadres p k : t <> tgt -> run x t -> gfin (gh x) <> None -> released (gh x) = true ->
+    (is_reg (mb (gh x)) = true -> jwr (gh x) = true) -> tshape x t [CLoadC (c_res tgt) 5; FC (JReadRes p k)]
+| sh_jready p k r j : t <> tgt -> run x t -> mb (gh x) = MBTaken j t -> woken (gh x) = false ->
+    gfin (gh x) = Some r -> nb (gh x) = O -> late (gh x) t = false ->
+    tshape x t [FStWrite j ST_READY; FC (JReady p k r j)]
+(* fiber_tryjoin *)
+| sh_trl1 p k : t <> tgt -> run x t -> tshape x t [CLoadC c_ds 5; FC (TrL1 p k)]
+| sh_trl2 p k : t <> tgt -> run x t -> tshape x t [CLoadC c_ds 5; FC (TrL2 p k)]
+| sh_trx p k : t <> tgt -> run x t -> ds_of (base x) <> D_NONE -> tshape x t [CXchgC c_ds D_WTJ 5; FC (TrX p k)]
+(* fiber_detach *)
+| sh_dx p k : t <> tgt -> run x t -> tshape x t [CXchgC c_ds D_DET 5; FC (DX p k)]
+| sh_dready p k j : t <> tgt -> run x t -> mb (gh x) = MBTaken j t -> woken (gh x) = false ->
+    tshape x t [FStWrite j ST_READY; FC (DReady p k j)].
+
+Definition succ_ok (x : gst) (e : nat * Z * option Z) : Prop :=
+  nostolen x -> snd e = Some (snd (fst e)).
+
+Record G (x : gst) : Prop := {
+  g_ds : ds_of (base x) = D_NONE \/ ds_of (base x) = D_WFJ \/ ds_of (base x) = D_WTJ \/ ds_of (base x) = D_DET;
+  g_mb : match mb (gh x) with
+         | MBNone => ds_of (base x) = D_NONE /\ ji_of (base x) = 0
+         | MBFull s => ds_of (base x) <> D_NONE /\ ji_of (base x) = fname s
+         | _ => ds_of (base x) <> D_NONE /\ ji_of (base x) = 0
+         end;
+  g_fin : forall R, gfin (gh x) = Some R -> cell (gm x) (c_res tgt) = R;
+  g_wfj : ds_of (base x) = D_WFJ -> gfin (gh x) <> None;
+  g_rel : ds_of (base x) = D_WTJ \/ ds_of (base x) = D_DET \/ mb (gh x) = MBNever \/
+          (exists s u, mb (gh x) = MBTaken s u) -> released (gh x) = true;
+  g_relmb : released (gh x) = true -> mb (gh x) <> MBNone;
+  g_k : forall t, pend (gm x) t = O /\ slot_sched (gm x) t = false /\ slot_mutex (gm x) t = None /\
+                  slot_mpmc (gm x) t = None;
+  g_asleep : forall s u, mb (gh x) = MBTaken s u -> woken (gh x) = false ->
+             exists X, stk (base x) s = [Asleep; YLoop; FC X];
+  g_woken : woken (gh x) = true -> exists s u, mb (gh x) = MBTaken s u;
+  g_gave : gave (gh x) = true -> exists s, mb (gh x) = MBTaken s tgt;
+  g_taken : forall s u, mb (gh x) = MBTaken s u -> s <> u /\
+            (s <> tgt -> u <> tgt -> stolen_d (gh x) = true \/ stolen_j (gh x) = true);
+  g_std : stolen_d (gh x) = true -> dwr (gh x) = true;
+  g_stj : stolen_j (gh x) = true -> jwr (gh x) = true;
+  g_det : gdet (gh x) = true -> mb (gh x) = MBNever \/ exists s u, mb (gh x) = MBTaken s u;
+  g_late : forall t, late (gh x) t = true -> gdet (gh x) = true;
+  g_len : length (gsucc (gh x)) = (na (gh x) + nb (gh x))%nat;
+  g_na : (na (gh x) <= 1)%nat /\ ((1 <= na (gh x))%nat -> exists s u, mb (gh x) = MBTaken s u /\ s <> tgt);
+  g_nb : (nb (gh x) <= 1)%nat /\
+         ((1 <= nb (gh x))%nat -> exists s u, mb (gh x) = MBTaken s u /\ (s <> tgt -> stolen_j (gh x) = true));
+  g_succ : forall e, In e (gsucc (gh x)) -> succ_ok x e;
+  g_badlate : bad_late (gh x) = false;
+  g_recl : reclaims (base x) = 0 \/
+           (reclaims (base x) = 1 /\ stk (base x) tgt = [] /\ fstate (gm x) tgt = ST_DONE /\ tfin x)
+}.
+
+Record Inv (x : gst) : Prop := {
+  i_g : G x;
+  i_sh : forall t, tshape x t (stk (base x) t)
+}.
